@@ -153,6 +153,10 @@ func (o *Op) keyValue() any {
 		return ""
 	case "int":
 		return int(0)
+	case "int1":
+		return int(1) // the value godi itself gives to the first member of a group
+	case "int2":
+		return int(2)
 	case "struct":
 		return struct{}{}
 	}
@@ -165,7 +169,7 @@ func (o *Op) refKey() (string, bool) {
 	switch o.KeyKind {
 	case "nil":
 		return "", true
-	case "empty", "int", "struct":
+	case "empty", "int", "int1", "int2", "struct":
 		return "", false
 	}
 	return o.Key, true
